@@ -269,8 +269,8 @@ TAIL = r'''
 * Rust is tied to the models by differential execution, not by a translator: no Rust-to-Lean translator for
   this code base could be written in the time available (binrw derive macros, trait-generic readers, I/O
   everywhere), so the regeneration route is used only for constants and the lock graph.
-* Not covered / partial, by property (details in §6): C03 the third-party compressors and the in-tree Huffman / ADPCM
-  codecs (framing, selector and limit logic and the in-tree sparse codec are modelled and proved); C05 totality is established by running the parsers (sampling), the theorems
+* Not covered / partial, by property (details in §6): C03 the third-party compressors and the in-tree Huffman codec
+  (framing, selector and limit logic and the in-tree sparse and ADPCM codecs are modelled and proved); C05 totality is established by running the parsers (sampling), the theorems
   cover the front loops and the allocation rule; C09 the rayon runtime; C10 collision resistance of MD5,
   RSA, multi-byte checksum collisions; C12 real crash injection is by strace fault injection on the syscall
   trace, not power loss; C13 lights, emitters, colour / texture animations and bone rotations are not generated (.anim files only as parser input in C05);
